@@ -13,12 +13,14 @@ def mass : P String := do
 
 inductive Op where
   | update (m g : FVec) | accept | reject
+  | refused (m g : FVec)      -- an update whose factorisation the library refused (LinAlgError): the verdict of the library call is an input
   | observe (z p : FVec)      -- generate_momentum(z), kinetic_energy(p), kinetic_energy_gradient(p)
 
 def pOp : P Op := do
   let k ← tok
   match k with
   | "U" => do let m ← pVec; let g ← pVec; pure (.update m g)
+  | "X" => do let m ← pVec; let g ← pVec; pure (.refused m g)
   | "A" => pure .accept
   | "R" => pure .reject
   | "O" => do let z ← pVec; let p ← pVec; pure (.observe z p)
@@ -39,6 +41,7 @@ def bfgs : P String := do
       let (st, outs) := acc
       match op with
       | .update m g => let st' := bfgsStep la floatFactor st (.update m g); (st', outs ++ [fmtMat st'.Minv ++ " " ++ fmtMat st'.F])
+      | .refused m g => let st' := bfgsStep la (fun _ => none) st (.update m g); (st', outs ++ [fmtMat st'.Minv ++ " " ++ fmtMat st'.F])
       | .accept => let st' := bfgsStep la floatFactor st .accept; (st', outs ++ [fmtMat st'.Minv ++ " " ++ fmtMat st'.F])
       | .reject => let st' := bfgsStep la floatFactor st .reject; (st', outs ++ [fmtMat st'.Minv ++ " " ++ fmtMat st'.F])
       | .observe z p => (st, outs ++ [fmtVec (bfgsMomentum la st z) ++ " " ++ fmtHexFloat (bfgsKinetic la st p) ++ " " ++ fmtVec (bfgsVelocity la st p)]))
